@@ -54,6 +54,44 @@ func main() {
 		seed, _ = strconv.ParseInt(s, 10, 64)
 	}
 	start := time.Now()
+	if *prop == "all" {
+		// variant / self-validation mode: one load, every property, verdict lines only
+		code := 0
+		func() {
+			defer func() {
+				if r := recover(); r != nil {
+					fmt.Printf("CHECKER-BROKEN: analyser panic: %v\n%s\n", r, debug.Stack())
+					code = 2
+				}
+			}()
+			p, err := loadProg(*repo, *goos, *goarch)
+			if err != nil {
+				fmt.Printf("UNDECIDED: cannot load %s: %v\n", *repo, err)
+				code = 2
+				return
+			}
+			p.vmTable()
+			for _, id := range sortedKeys(props) {
+				c := newCtx(p, id, *tier)
+				func() {
+					defer func() {
+						if r := recover(); r != nil {
+							fmt.Printf("CHECKER-BROKEN: %s: analyser panic: %v\n", id, r)
+							code = 2
+						}
+					}()
+					for _, r := range props[id].Rules {
+						r(c)
+					}
+					runControls(c)
+					if rc := finishNoEvidence(c, *verif); rc > code {
+						code = rc
+					}
+				}()
+			}
+		}()
+		os.Exit(code)
+	}
 	pi := props[*prop]
 	if pi == nil {
 		fmt.Printf("CHECKER-BROKEN: unknown property %q\n", *prop)
@@ -79,6 +117,10 @@ func main() {
 			r(c)
 		}
 		runControls(c)
+		var extra map[string]interface{}
+		if *tier == "thorough" && !*noEvidence {
+			extra = runThorough(c, *repo, *verif)
+		}
 		if *dumpKeys {
 			keys := []string{}
 			for _, o := range c.Obls {
@@ -92,7 +134,7 @@ func main() {
 			code = finishNoEvidence(c, *verif)
 			return
 		}
-		code = finish(c, *verif, start, seed, cmdline)
+		code = finish(c, *verif, start, seed, cmdline, extra)
 	}()
 	_ = filepath.Join
 	os.Exit(code)
